@@ -74,10 +74,12 @@ def main():
     for f in kf["findings"]:
         props = f["property"] if isinstance(f["property"], list) else [f["property"]]
         ob = f["obligation"] if isinstance(f["obligation"], str) else "; ".join(f["obligation"])
-        rows.append(f"| {f['id']} | {', '.join(props)} | `{ob[:110]}` | {f['what'][:260]} | {str(f.get('witness', ''))[:170]} | open: {f.get('why_not_fixed', '')[:140]} |")
+        def esc(x):
+            return str(x).replace("|", "\\|")
+        rows.append(f"| {f['id']} | {', '.join(props)} | `{esc(ob[:110])}` | {esc(f['what'][:260])} | {esc(str(f.get('witness', ''))[:170])} | open: {esc(f.get('why_not_fixed', '')[:140])} |")
     for f in kf["fixed"]:
         props = [f["property"]] + f.get("also", [])
-        rows.append(f"| {f['id']} | {', '.join(props)} | - | {f['entry'][:300]} | {str(f.get('witness', ''))[:170]} | **fixed** in `{f['commit']}` |")
+        rows.append(f"| {f['id']} | {', '.join(props)} | - | {esc(f['entry'][:300])} | {esc(str(f.get('witness', ''))[:170])} | **fixed** in `{f['commit']}` |")
     text = block(text, "FINDINGS", "\n".join(rows))
     # seeds
     rows = ["| Change | Property | What it changes | Needs, to manifest | Own check | Other checks run |", "|---|---|---|---|---|---|"]
@@ -101,7 +103,9 @@ def main():
             return f"{mm.group(1)}: {verdict}" + (f", {mm.group(3)} obligations, first `{mm.group(4)[:90]}`" if mm.group(2) == "1" else "")
         own = short(res[0]) if res else m.get("caught_by", "")[:120]
         others = "; ".join(short(r) for r in res[1:]) if len(res) > 1 else "-"
-        rows.append(f"| {n} | {m['property']} | {m['change'][:200]} | {m['needs_to_manifest'][:160]} | {own} | {others} |")
+        def esc(x):
+            return str(x).replace("|", "\\|")
+        rows.append(f"| {n} | {m['property']} | {esc(m['change'][:200])} | {esc(m['needs_to_manifest'][:160])} | {esc(own)} | {esc(others)} |")
     text = block(text, "SEEDS", "\n".join(rows))
     for name, fn in (("SEEDNOTES", "design_seednotes.md"), ("FALSEALARMS", "design_falsealarms.md")):
         with open(os.path.join(HERE, "tools", fn)) as f:
